@@ -5,6 +5,7 @@ import (
 	"crypto/sha256"
 	"fmt"
 	"github.com/pokt-network/pocket-core/codec"
+	sdk "github.com/pokt-network/pocket-core/types"
 	pc "github.com/pokt-network/pocket-core/x/pocketcore/types"
 	"os"
 	"runtime/debug"
@@ -68,6 +69,7 @@ type Sim struct {
 	restartedSinceBlock bool                        // the node was restarted and has not executed a block since
 	members             map[string]map[string]bool  // session header hash -> addresses seen in its node list (dispatch)
 	memberHeaders       map[string]pc.SessionHeader // session header hash -> header
+	sentToModule        map[string]sdk.BigInt       // module account name -> coins it received through plain sends
 	outsider            map[string]bool             // claim keys of claims made by nodes outside the session
 	replay              bool
 	aborted             bool
